@@ -14,12 +14,26 @@ T2  the history is run on the real classes and on the model (construct / assign_
 Oracle  the clauses of C06 evaluated on the real object with the independent record reader wiregen.read_records.
 T3  the spec-level presence predicates (has_record / last_member, the Python twin of coq/Spec/C06Wire.v) against
     google.protobuf's HasField / WhichOneof on the same bytes, and betterproto's reports against both.
+Gap ties (the specification-side functions the sixth-batch theorems are stated over; helpers in coq/Model/C06GapCv.v):
+ (1) parse_records / has_field_bytes / which_oneof_bytes are evaluated IN COQ on every distinct byte string the run meets
+     (bytes(m) of every history, the spec-written records, the reference's re-encoding, the reference's own encoding of the sweep
+     values) and compared with the independent record reader and with HasField / WhichOneof of the reference class on those bytes.
+ (2) the oracle of C06_encode_presence: `is not None` of every optional-like field, which_one_of of every group and
+     serialized_on_wire of every plain sub-message of the REAL object against the reference's reports on bytes(m); c01_value_ok
+     and sow_ok are evaluated in Coq on the model of the same object (same evaluation as T2), together with the model's
+     value_not_none / which_one_of / child_on_wire, which are compared with the real object's reports.
+ (3) the implicit-presence converse with the schema-less record reader on every history (default: no record with the field's
+     number; non-default: exactly one), and a dedicated sweep of every implicit-presence field x {default, representative and
+     boundary values, -0.0, the float32 denormal, infinity} x {constructor, assignment} on which is_default / here /
+     implicit_exact_kind are evaluated in Coq and compared with `value == _get_field_default` / bytes(m), and the reference's own
+     encoding of the value says whether the record must be there.  -0.0 is the known finding K14 (class neg-zero-skipped).
 """
 import base64
 import json
 import os
 import random
 import struct
+import time
 from datetime import datetime, timedelta, timezone
 
 from .. import jsongen, lib, msggen, wiregen
@@ -27,7 +41,8 @@ from ..msggen import NBUILTIN, EPOCH
 
 IMPORTS = ("Model.Types Model.Object Model.Eq Model.Encode Model.Decode Model.Canon Model.WellFormed Model.C06Obs "
            "Model.Json Spec.C06Wire gen.Tables")
-EXTRA_TARGETS = ["Model/Canon.vo", "Model/Decode.vo", "Model/C06Obs.vo", "Model/Json.vo", "Spec/C06Wire.vo"]
+EXTRA_TARGETS = ["Model/Canon.vo", "Model/Decode.vo", "Model/C06Obs.vo", "Model/Json.vo", "Spec/C06Wire.vo", "Model/C06GapCv.vo"]
+GAP_IMPORTS = IMPORTS + " Model.C01Def Model.C06GapDefs Model.C06GapCv"
 
 TRUSTED = [
     "Coq 8.16.1 kernel and vm_compute (no native_compute); full .vo build via coq_makefile",
@@ -44,6 +59,11 @@ TRUSTED = [
     "Python side: harness/msggen.py (schemas built with the public field API, snapshots through object.__getattribute__), "
     "harness/wiregen.py (independent record reader / writer), the AV -> object / JSON / records converters of this file, "
     "the in-memory construction of the google.protobuf twin classes (proto3_optional + synthetic oneofs, wrappers, Timestamp/Duration)",
+    "gap ties: coq/Model/C06GapCv.v only prints, as canonical values, what parse_records / has_field_bytes / which_oneof_bytes "
+    "(Model/C06GapDefs.v), c01_value_ok / sow_ok (Model/C01Def.v), value_not_none / child_on_wire / here (Model/C06Obs.v), "
+    "which_one_of, is_default return; implicit_exact_kind_b in it is a boolean twin of the Prop implicit_exact_kind (same three "
+    "disjuncts, no proof of equivalence); the hypotheses' values for an object are GUESSED in Python and the guess is what Coq "
+    "confirms or corrects (a mismatching pair is re-evaluated against all four valuations)",
     "from_dict: the model is coq/Model/Json.v from_dict_cls / from_dict_inst (owned and validated by C04's check on to_dict outputs); "
     "here every from_dict cell of the matrix (mappings with explicit defaults, {} for sub-messages, absent keys; class and instance "
     "form) is additionally evaluated on that model by vm_compute and compared with the real object (snapshot, bytes, is_set, reads); "
@@ -70,7 +90,9 @@ RULE = ("the systematic schema (msggen.matrix_schema: every scalar kind, enum, m
         "that member) and random mappings over random subsets of the fields (default / random values, explicit None, snake or camel "
         "keys, random key order, either form), all compared with Model/Json.v from_dict_cls / from_dict_inst; decoder streams: per "
         "class, random sequences of records for its explicit-presence fields with explicit defaults, duplicates, several members of one "
-        "oneof, wire-type substitutions, unknown fields, padded varints. non-trivial = at least one field set / one record; "
+        "oneof, wire-type substitutions, unknown fields, padded varints; the implicit-presence sweep: every implicit-presence field "
+        "(all scalar kinds, enum, Timestamp, Duration) of every schema x {default, representative / boundary non-default values; "
+        "float and double also -0.0, 2^-149, infinity, a large negative} x {constructor, assignment}. non-trivial = at least one field set / one record; "
         "distinct = distinct (schema, class, history) resp. (class, bytes)")
 
 MASK64 = (1 << 64) - 1
@@ -416,7 +438,7 @@ def run_history(schema, H):
     c = schema.classes[ci]
     cidx = NBUILTIN + ci
     names = [f.name for f in c.fields]
-    r.error, r.m, r.model = None, None, None
+    r.error, r.m, r.model, r.expr = None, None, None, None
     r.lazy_depth = max([len(p) for p, _, _ in H.get("sets", [])] + [0])
     kwlits, oplits = [], []
     try:
@@ -428,16 +450,17 @@ def run_history(schema, H):
             try:
                 jl = jsongen.json_literal(fd["dict"])
                 if fd["form"] == "class":
-                    r.model = f"(c06_obs sc{si} (from_dict_cls sc{si} {cidx}%nat {jl}))"
+                    r.expr = f"(from_dict_cls sc{si} {cidx}%nat {jl})"
                 else:
-                    r.model = f"(c06_obs sc{si} (from_dict_inst sc{si} (new sc{si} {cidx}%nat) {jl}))"
+                    r.expr = f"(from_dict_inst sc{si} (new sc{si} {cidx}%nat) {jl})"
+                r.model = f"(c06_obs sc{si} {r.expr})"
             except msggen.Unmodellable:
-                r.model = None
+                r.model = r.expr = None
             try:
                 r.m = c.py.from_dict(fd["dict"]) if fd["form"] == "class" else c.py().from_dict(fd["dict"])
                 r.snapshot = msggen.obj_literal(schema, r.m)
             except msggen.Unmodellable as e:
-                r.error, r.m, r.model = "unmodellable: " + str(e), None, None
+                r.error, r.m, r.model, r.expr = "unmodellable: " + str(e), None, None, None
             except Exception as e:  # noqa
                 r.error, r.m = f"{type(e).__name__}: {e}", None
             return r
@@ -468,6 +491,7 @@ def run_history(schema, H):
     if data is not None:
         expr = f"(do o <- {expr}; parse_into sc{si} o {lib.coq_bytes(data)})"
     r.model = f"(c06_obs sc{si} {expr})"
+    r.expr = expr
     try:
         m = c.py(**kwargs)
         for path, n, v in sets:
@@ -483,7 +507,7 @@ def run_history(schema, H):
         r.snapshot = msggen.obj_literal(schema, m)
     except msggen.Unmodellable as e:
         r.error = "unmodellable: " + str(e)
-        r.model = None
+        r.model = r.expr = None
     except Exception as e:  # noqa
         r.error = f"{type(e).__name__}: {e}"
         r.m = None
@@ -801,6 +825,223 @@ def t3_compare(ctx, schema, ci, refs, bs, source):
 
 
 # --------------------------------------------------------------------------------------
+# the gap ties: the specification-side functions of the sixth-batch theorems against the reference / the implementation
+# --------------------------------------------------------------------------------------
+HASFIELD_CLASSES = ("optional", "wrapper", "submsg", "valuemsg")   # the kinds HasField is defined for and has_record models
+CLS_NEGZERO = "neg-zero-skipped"                                   # K14 (known_findings/C16.json, same label here)
+
+
+def records_literal(recs):
+    """wiregen records (no groups) as the cv c06_gap_records prints"""
+    return lib.cl([lib.cl([lib.cz(num), lib.cz(wt), lib.cz(p if wt == 0 else 0), lib.cb(b"" if wt == 0 else p)])
+                   for num, wt, p in recs])
+
+
+def gap_bytes_pair(schema, si, ci, ref, bs):
+    """(1): one byte string -> (model expression, expected literal, problems).  The record list is compared with the
+    independent Python reader, has_field_bytes / which_oneof_bytes with HasField / WhichOneof of the reference message `ref`
+    decoded from the same bytes (ref is None: the reference rejects the bytes, only the records are compared)."""
+    c = schema.classes[ci]
+    problems = []
+    try:
+        recs = wiregen.read_records(bs)
+    except wiregen.WireError:
+        recs = None
+    spec_ok = recs is not None and all(r[1] != 3 for r in recs)     # groups are outside the grammar of Spec/C06Wire.v
+    rec_lit = records_literal(recs) if spec_ok else "(CE EOther)"
+    if ref is None:
+        return f"(c06_gap_records {lib.coq_bytes(bs)})", rec_lit, problems
+    if recs is None:
+        problems.append("the record reader rejects a byte string the reference accepts")
+    names = [f.name for f in c.fields]
+    idxs = [i for i, f in enumerate(c.fields) if presence_class(f) in HASFIELD_CLASSES]
+    has = [(lib.cbool(ref.HasField(c.fields[i].name)) if spec_ok else "(CE EOther)") for i in idxs]
+    which = []
+    for g in range(c.ngroups):
+        w = (ref.WhichOneof(f"g{g}") or "") if any(f.group == g for f in c.fields) else ""
+        which.append("(CE EOther)" if not spec_ok else (lib.cz(names.index(w)) if w else lib.CN))
+    expr = (f"(c06_gap_bytes_obs sc{si} {NBUILTIN + ci}%nat [{'; '.join(f'{i}%nat' for i in idxs)}] {lib.coq_bytes(bs)})")
+    return expr, lib.cl([rec_lit, lib.cl(has), lib.cl(which)]), problems
+
+
+def real_presence(schema, c, m):
+    """what the REAL object reports, in the vocabulary of C06_encode_presence: not-None-ness of each optional-like field,
+    which_one_of of each group, serialized_on_wire of each plain sub-message.  Returns (io, nn, which, im, sow)."""
+    import betterproto as bp
+    io = [i for i, f in enumerate(c.fields) if presence_class(f) in ("optional", "wrapper")]
+    im = [i for i, f in enumerate(c.fields) if presence_class(f) == "submsg"]
+    nn = []
+    for i in io:
+        try:
+            nn.append(getattr(m, c.fields[i].name) is not None)
+        except AttributeError:
+            nn.append(False)
+    which = [bp.which_one_of(m, f"g{g}")[0] for g in range(c.ngroups)]
+    sow = []
+    for i in im:
+        ch = raw_of(m, c.fields[i].name)
+        sow.append(bool(isinstance(ch, bp.Message) and bp.serialized_on_wire(ch)))
+    return io, nn, which, im, sow
+
+
+def enc_presence_disagreements(schema, c, m, ref):
+    """(2): the conclusion of C06_encode_presence with the reference in the place of has_record / last_member:
+    the real object's reports against HasField / WhichOneof of the reference message decoded from bytes(m)"""
+    io, nn, which, im, sow = real_presence(schema, c, m)
+    out = []
+    for i, v in zip(io, nn):
+        want = ref.HasField(c.fields[i].name)
+        if v != want:
+            out.append(f"{presence_class(c.fields[i])} field {c.fields[i].name}: `is not None` = {v} on the object but the reference's "
+                       f"HasField on bytes(m) = {want}")
+    for g, w in enumerate(which):
+        want = (ref.WhichOneof(f"g{g}") or "") if any(f.group == g for f in c.fields) else ""
+        if w != want:
+            out.append(f"which_one_of(g{g}) = {w!r} on the object but the reference's WhichOneof on bytes(m) = {want!r}")
+    for i, v in zip(im, sow):
+        want = ref.HasField(c.fields[i].name)
+        if v != want:
+            out.append(f"plain sub-message {c.fields[i].name}: serialized_on_wire = {v} on the object but the reference's HasField "
+                       f"on bytes(m) = {want}")
+    return out
+
+
+def guess_value_ok(m, depth=0):
+    """Python GUESS of c01_value_ok on the objects this check generates (values are in range): no message inside keeps unknown
+    bytes, and a oneof member that is not the selected one holds PLACEHOLDER.  Only used to predict what Coq will compute
+    (one evaluation instead of two); the hypothesis itself is evaluated in Coq."""
+    import betterproto as bp
+    try:
+        if raw_of(m, "_unknown_fields"):
+            return False
+        cur = raw_of(m, "_group_current")
+        for name, group in m._betterproto.oneof_group_by_field.items():
+            if cur.get(group) != name and raw_of(m, name) is not bp.PLACEHOLDER:
+                return False
+        if depth > 6:
+            return True
+        for fd in m.__dataclass_fields__:
+            v = raw_of(m, fd)
+            vs = v if isinstance(v, list) else (list(v.values()) if isinstance(v, dict) else [v])
+            for x in vs:
+                if isinstance(x, bp.Message) and not guess_value_ok(x, depth + 1):
+                    return False
+    except Exception:  # noqa
+        return True
+    return True
+
+
+def guess_sow_ok(c, m):
+    """Python GUESS of sow_ok (Model/C01Def.v): a message held in a singular position whose flag is down is an all-default one in
+    a plain, unselected position; a selected message member holds a message.  Same role as guess_value_ok."""
+    import betterproto as bp
+    try:
+        cur = raw_of(m, "_group_current")
+        for f in c.fields:
+            if f.card in ("repeated", "map"):
+                continue
+            raw = raw_of(m, f.name)
+            sel = f.group is not None and cur.get(f"g{f.group}") == f.name
+            if isinstance(raw, bp.Message) and not bp.serialized_on_wire(raw) and (sel or f.card == "optional" or bytes(raw) != b""):
+                return False
+            if raw is bp.PLACEHOLDER and f.elem.kind == "msg" and sel:
+                return False
+    except Exception:  # noqa
+        return True
+    return True
+
+
+def is_neg_zero(v):
+    return isinstance(v, float) and v == 0.0 and struct.pack("<d", v) != bytes(8)
+
+
+def proto_default_value(f, raw):
+    """is the value the proto3 default of the implicit-presence field, judged WITHOUT Python's == on floats (the zero bit
+    pattern, the empty string, the epoch, the zero span): -0.0 is not"""
+    import betterproto as bp
+    if raw is bp.PLACEHOLDER:
+        return True
+    e = f.elem
+    if e.kind == "scalar":
+        if e.pt in ("float", "double"):
+            return isinstance(raw, (int, float)) and raw == 0 and not is_neg_zero(raw)
+        if e.pt == "bool":
+            return raw is False or (not isinstance(raw, bool) and raw == 0)
+        if e.pt == "string":
+            return raw == ""
+        if e.pt == "bytes":
+            return bytes(raw) == b""
+        return int(raw) == 0
+    if e.kind == "enum":
+        return int(raw) == 0
+    if e.kind == "datetime":
+        return raw == EPOCH
+    if e.kind == "timedelta":
+        return raw == timedelta(0)
+    raise ValueError(e.kind)
+
+
+def implicit_converse(schema, c, m, b):
+    """(3): with the schema-less record reader: an implicit-presence field holding its default has NO record with its
+    number in bytes(m), one holding a non-default value has exactly one (C06_implicit_emit_iff_partial,
+    C06_implicit_nondefault_emit; Timestamp / Duration fields are observed the same way).  Unknown fields kept by the object
+    are re-emitted under whatever number they came with, so with unknown bytes only records of a fitting wire type count.
+    Returns [(class label, text)] and the tally {(kind, default?, present?): n}."""
+    out, tally = [], {}
+    try:
+        recs = wiregen.read_records(b)
+    except wiregen.WireError as e:
+        return [(None, f"bytes(m) is not a sequence of records: {e}")], tally
+    unk = bool(raw_of(m, "_unknown_fields"))
+    for f in c.fields:
+        pc = presence_class(f)
+        if pc not in ("implicit", "valuemsg"):
+            continue
+        raw = raw_of(m, f.name)
+        n = len([r for r in recs if r[0] == f.number and (not unk or wt_fits(f, r[1]))])
+        isdef = proto_default_value(f, raw)
+        key = (pc, "default" if isdef else ("neg-zero" if is_neg_zero(raw) else "non-default"), "absent" if n == 0 else "present")
+        tally[key] = tally.get(key, 0) + 1
+        if isdef and n:
+            out.append((None, f"{pc} field {f.name} (number {f.number}) holds its default {raw!r} but bytes(m) has {n} record(s) "
+                              f"with its number"))
+        if not isdef and n != 1:
+            cls = CLS_NEGZERO if (is_neg_zero(raw) and n == 0) else None
+            out.append((cls, f"{pc} field {f.name} (number {f.number}) holds the non-default value {raw!r} but bytes(m) has {n} "
+                             f"record(s) with its number"))
+    return out, tally
+
+
+def exact_kind_py(f):
+    """Python twin of implicit_exact_kind (Model/C06GapDefs.v): varint / fixed kinds, str, bytes"""
+    return f.elem.kind in ("scalar", "enum")
+
+
+def sweep_values(schema, f):
+    """(3) the values of the dedicated sweep of one implicit-presence field: the default, every representative non-default
+    value, boundaries; float / double additionally -0.0, the smallest float32 denormal and infinity"""
+    vals = [elem_default_av(f.elem)] + list(elem_nondefault_avs(schema, f.elem))
+    if f.elem.kind == "scalar" and f.elem.pt in ("float", "double"):
+        vals += [-0.0, 2.0 ** -149, float("inf"), -1.0e30 if f.elem.pt == "double" else -65536.0]
+    if f.elem.kind == "scalar" and f.elem.pt == "string":
+        vals += ["\x00"]
+    return vals
+
+
+def ref_set(ref, f, schema, av):
+    """set the field of a reference message to the abstract value (scalars, enums, Timestamp, Duration)"""
+    e = f.elem
+    if e.kind in ("scalar", "enum"):
+        setattr(ref, f.name, bytes.fromhex(av["hex"]) if e.kind == "scalar" and e.pt == "bytes" else av)
+    elif e.kind == "datetime":
+        getattr(ref, f.name).FromMicroseconds(av["dt"])
+    elif e.kind == "timedelta":
+        getattr(ref, f.name).FromMicroseconds(av["td"])
+    else:
+        raise ValueError(e.kind)
+
+
+# --------------------------------------------------------------------------------------
 # decoder streams aimed at presence
 # --------------------------------------------------------------------------------------
 def presence_stream(schema, ci, rng):
@@ -989,12 +1230,15 @@ def random_from_dict_history(schema, sref, rng):
 CORPUS = os.path.join(lib.VERIF, "corpus", "C06.json")
 
 
-def compare(ctx, name, pairs, chunk, prelude):
+def compare(ctx, name, pairs, chunk, prelude, imports=IMPORTS):
     """lib.coq_compare; when another check rebuilt shared .vo files between our build and this evaluation
     ("inconsistent assumptions"), rebuild our targets and try again"""
     for attempt in range(3):
         try:
-            return lib.coq_compare(ctx, name, IMPORTS, pairs, chunk=chunk, prelude=prelude)
+            t0 = time.time()
+            res = lib.coq_compare(ctx, name, imports, pairs, chunk=chunk, prelude=prelude)
+            ctx.cov.setdefault("coq_evaluation_seconds", {})[name] = round(time.time() - t0, 1)
+            return res
         except RuntimeError as e:
             if "inconsistent assumptions" in str(e) and attempt < 2:
                 ctx.notes.append(f"{name}: shared .vo files changed under the evaluation (concurrent build); rebuilt and retried")
@@ -1037,6 +1281,78 @@ def run(ctx):
         bytes() call recurse to the interpreter limit, and the replay needs only the first failing inputs)"""
         return sum(1 for f in ctx.failures if f.get("cls") not in known_cls) >= 40
 
+    # ---- the gap ties (1) (2) (3): pairs for Coq and what the implementation / the reference said, evaluated at the end
+    from google.protobuf.message import DecodeError
+    gap_seen, gap_pairs, gap_meta = set(), [], []
+    obj_pairs, obj_meta, merged = [], [], {}   # obj_meta: (si, H, cell, expr, expected observers, disagreements, lazy, bytes hex, guess)
+    imp_pairs, imp_meta = [], []
+
+    def clean(H):
+        return {k: v for k, v in H.items() if not k.startswith("_")}
+
+    def gap_bytes_case(si, ci, bs, source, reencode=True):
+        """(1) one byte string of class ci: spec readers in Coq vs record reader / reference"""
+        if refs[si] is None or (si, ci, bs) in gap_seen:
+            return
+        gap_seen.add((si, ci, bs))
+        c = schemas[si].classes[ci]
+        try:
+            ref = refs[si][c.name].FromString(bs)
+        except DecodeError:
+            ref = None
+        inp = {"schema": schemas[si].describe()[c.name], "class": c.name, "bytes": bs.hex(), "source": source}
+        try:
+            expr, exp, problems = gap_bytes_pair(schemas[si], si, ci, ref, bs)
+        except Exception as e:  # noqa
+            ctx.fail("corr", f"the reference comparison of the presence readers raised {type(e).__name__}: {e}", input=inp,
+                     theorem_or_correspondence="T3 Model/C06GapDefs.v <-> google.protobuf")
+            return
+        for p in problems:
+            ctx.fail("corr", "broken spec: " + p, input=inp,
+                     theorem_or_correspondence="T3 Spec/C06Wire.parse_records <-> google.protobuf")
+        gap_pairs.append((expr, exp))
+        gap_meta.append(inp)
+        ctx.count("gap1:" + ("records+HasField+WhichOneof" if ref is not None else "records_only(reference_rejects)"))
+        ctx.count("gap1:source:" + source)
+        if ref is not None and reencode:
+            try:
+                rb = ref.SerializeToString()
+            except Exception:  # noqa
+                return
+            gap_bytes_case(si, ci, rb, "reference re-encoding", reencode=False)
+
+    def gap_object_case(si, H, cell, c, r, b, lazy):
+        """(2) the oracle of C06_encode_presence on the real object + the hypotheses / observers on the model;
+        (3) the implicit-presence converse on the same bytes"""
+        schema = schemas[si]
+        probs, tally = implicit_converse(schema, c, r.m, b)
+        for k, n in tally.items():
+            ctx.count("gap3:" + ":".join(k), n)
+        for cls, text in probs:
+            fail_oracle(text, H, cell, cls=cls, bytes=b.hex())
+        if refs[si] is None:
+            return
+        try:
+            ref = refs[si][c.name].FromString(b)
+        except DecodeError:
+            ctx.count("gap2:reference_rejects_bytes(m)")
+            return
+        dis = enc_presence_disagreements(schema, c, r.m, ref)
+        if r.expr is None or getattr(r, "pair_idx", None) is None:
+            ctx.count("gap2:object_not_modelled")
+            for d in dis:
+                fail_oracle(d + " (the object has no model: hypotheses of C06_encode_presence not evaluated)", H, cell, bytes=b.hex())
+            return
+        io, nn, which, im, sow = real_presence(schema, c, r.m)
+        names = [f.name for f in c.fields]
+        tail = [lib.cl([lib.cbool(v) for v in nn]), lib.cl([(lib.cz(names.index(w)) if w else lib.CN) for w in which]),
+                lib.cl([lib.cbool(v) for v in sow])]
+        expr = (f"(c06_gap_obj_obs sc{si} [{'; '.join(f'{i}%nat' for i in io)}] [{'; '.join(f'{i}%nat' for i in im)}] r__h)")
+        guess = (guess_value_ok(r.m), guess_sow_ok(c, r.m))      # a wrong guess only costs a second evaluation
+        obj_pairs.append((expr, lib.cl([lib.cbool(guess[0]), lib.cbool(guess[1])] + tail)))
+        obj_meta.append((si, clean(H), cell, r.expr, tail, dis, lazy, b.hex(), guess))
+        merged[r.pair_idx] = len(obj_pairs) - 1
+
     def do_history(si, H, cell=None):
         """run, compare with the model, apply the oracle; returns the Ran"""
         if broken():
@@ -1058,6 +1374,7 @@ def run(ctx):
         if r.model is not None:
             pairs.append((r.model, observe(schema, H, r)))
             meta.append((si, H, cell))
+            r.pair_idx = len(pairs) - 1
         if r.m is None:
             ctx.count("history_raises")
             if cell is not None:
@@ -1113,6 +1430,14 @@ def run(ctx):
             t3_compare(ctx, schema, ci, refs[si], b, "bytes(m) of a history")
             if H.get("parse"):
                 t3_compare(ctx, schema, ci, refs[si], bytes.fromhex(H["parse"]), "spec-written records")
+        # ---- the gap ties
+        try:
+            gap_object_case(si, H, cell, c, r, b, lazy)
+            gap_bytes_case(si, ci, b, "bytes(m)")
+            if H.get("parse"):
+                gap_bytes_case(si, ci, bytes.fromhex(H["parse"]), "spec-written records")
+        except Exception as e:  # noqa
+            fail_oracle(f"the presence comparison with the reference raised {type(e).__name__}: {str(e)[:200]}", H, cell)
         return r
 
     # ------------------------------------------------------------------ regression corpus first
@@ -1154,6 +1479,62 @@ def run(ctx):
         rng.shuffle(lz)
         for H, cell in lz[:20]:
             do_history(si, H, cell)
+
+    # ------------------------------------------------------------------ (3) the implicit-presence sweep: every implicit-presence
+    # field of every schema x {default, representative / boundary non-default values, -0.0, denormal, infinity} x {constructor,
+    # assignment}: the history goes through do_history (model, emission clauses, reference, the record-number converse) and,
+    # in addition, the vocabulary of C06_implicit_emit_iff_partial is evaluated on the value in Coq and compared with the
+    # implementation (is_default <-> `value == m._get_field_default(name)`, here <-> bytes(m)), and the reference's own
+    # encoding of the same value says whether a record of the field is there
+    for si, schema in enumerate(schemas):
+        for ci, c in enumerate(schema.classes):
+            for fi, f in enumerate(c.fields):
+                pc = presence_class(f)
+                if pc not in ("implicit", "valuemsg") or broken():
+                    continue
+                for av in sweep_values(schema, f):
+                    for way in ("ctor", "setattr"):
+                        H = {"schema": srefs[si], "class": ci}
+                        if way == "ctor":
+                            H["kwargs"] = {f.name: av}
+                        else:
+                            H["sets"] = [[[], f.name, av]]
+                        r = do_history(si, H, None)
+                        if r is None or r.m is None:
+                            if r is not None and not (r.error or "").startswith("unmodellable"):
+                                fail_oracle(f"setting the {pc} field {f.name} raised {r.error}", H, None)
+                            continue
+                        kind = f.elem.pt if f.elem.kind == "scalar" else f.elem.kind
+                        try:
+                            raw = raw_of(r.m, f.name)
+                            b = bytes(r.m)
+                            own_default = bool(raw == r.m._get_field_default(f.name))
+                            lit = msggen.pv_literal(schema, raw)
+                        except Exception as e:  # noqa
+                            ctx.count("gap3:sweep_not_evaluated:" + type(e).__name__)
+                            continue
+                        state = "default" if proto_default_value(f, raw) else ("neg-zero" if is_neg_zero(raw) else "non-default")
+                        ctx.count(f"gap3:sweep:{kind}:{state}:{'absent' if b == b'' else 'present'}")
+                        imp_pairs.append((f"(c06_gap_implicit sc{si} {NBUILTIN + ci}%nat {fi}%nat {lit})",
+                                          lib.cl([lib.cbool(own_default), lib.cb(b), lib.cbool(exact_kind_py(f))])))
+                        imp_meta.append({"history": clean(H), "field": f.name, "value": repr(raw), "bytes": b.hex()})
+                        # the reference's own encoding of the same value
+                        if refs[si] is not None and way == "ctor":
+                            try:
+                                ro = refs[si][c.name]()
+                                ref_set(ro, f, schema, av)
+                                rb = ro.SerializeToString()
+                                rn = len([x for x in wiregen.read_records(rb) if x[0] == f.number])
+                                bn = len([x for x in wiregen.read_records(b) if x[0] == f.number])
+                            except Exception as e:  # noqa
+                                ctx.count("gap3:reference_encoding_not_built:" + type(e).__name__)
+                                continue
+                            gap_bytes_case(si, ci, rb, "reference encoding of a set field")
+                            ctx.count(f"gap3:reference:{pc}:{state}:ref={'present' if rn else 'absent'},bp={'present' if bn else 'absent'}")
+                            if pc == "implicit" and (rn > 0) != (bn > 0) and not (is_neg_zero(raw) and bn == 0):
+                                # (-0.0 skipped is reported once, by implicit_converse, under the K14 label)
+                                fail_oracle(f"implicit field {f.name} = {raw!r}: the reference's encoding has {rn} record(s) of the field, "
+                                            f"bytes(m) has {bn}", H, None, bytes=b.hex(), reference_bytes=rb.hex())
 
     # ------------------------------------------------------------------ random combinations
     nrand = 500 if not ctx.thorough else 6000
@@ -1233,12 +1614,67 @@ def run(ctx):
                 spec_pairs.append((f"(c06_spec_obs sc{si} {NBUILTIN + ci}%nat {lib.coq_bytes(bs)})", exp))
 
     # ------------------------------------------------------------------ evaluate the model
-    bad = compare(ctx, "c06wf", wf_pairs, 4, prelude)
-    for i in bad:
+    def spread(n, lo=30, hi=400):
+        """chunk size that gives every core a file"""
+        return max(lo, min(hi, -(-n // lib.JOBS)))
+
+    # schema hypotheses: wf_schema / std_builtins_b (decode theorems), c01_schema_ok (C06_encode_presence)
+    nsch = len(schemas)
+    bad = compare(ctx, "c06wf", wf_pairs + [(f"c06_gap_schema_hyps sc{i}", lib.cbool(True)) for i in range(nsch)], 4, prelude, GAP_IMPORTS)
+    for i in [i for i in bad if i < nsch]:
         ctx.fail("corr", "a generated schema does not satisfy wf_schema / std_builtins (theorem hypotheses not met by the generator)",
                  input={"schema": srefs[i]}, no_input=True, theorem_or_correspondence="wf_schema on generated schemas")
-    bad = compare(ctx, "c06", pairs, 90, prelude)
-    for i in bad[:20]:
+    sch_bad = {i - nsch for i in bad if i >= nsch}
+    for i in sorted(sch_bad):
+        ctx.count("gap2:schema_outside_c01_schema_ok")
+        ctx.notes.append(f"schema {srefs[i]} does not satisfy c01_schema_ok && std_builtins_b: its objects are outside C06_encode_presence")
+    # the histories.  Where the object also takes part in the oracle of C06_encode_presence, ONE evaluation of the history
+    # feeds both c06_obs (T2) and c06_gap_obj_obs (the two hypotheses as guessed + the three observers): `merged`
+    # maps the pair index to the index in obj_meta.  A pair that does not match is split in a second evaluation.
+    run_pairs = list(pairs)
+    for k, j in merged.items():
+        si = meta[k][0]
+        run_pairs[k] = (f"(let r__h := {obj_meta[j][3]} in CL [c06_obs sc{si} r__h; {obj_pairs[j][0]}])",
+                        lib.cl([pairs[k][1], obj_pairs[j][1]]))
+    bad = compare(ctx, "c06", run_pairs, 90, prelude, GAP_IMPORTS)
+    t2_bad = [i for i in bad if i not in merged]
+    hyp = {j: obj_meta[j][8] for j in range(len(obj_pairs))}      # the guess is confirmed by Coq unless the pair is in `bad`
+    obs_bad = set()
+    split = [i for i in bad if i in merged]
+    for i in split[200:]:                                          # a badly broken tree: the first 200 are split, that is enough
+        hyp[merged[i]] = (None, None)
+        t2_bad.append(i)
+        ctx.count("gap2:mismatching_pairs_not_split")
+    split = split[:200]
+    if split:
+        second, owner = [], []
+        for i in split:
+            j = merged[i]
+            si, expr, tail = obj_meta[j][0], obj_meta[j][3], obj_meta[j][4]
+            second.append(pairs[i])
+            owner.append((i, "t2", None))
+            gexpr = obj_pairs[j][0].replace("r__h", expr)
+            for v in ((1, 1), (1, 0), (0, 1), (0, 0)):
+                second.append((f"(c06_gap_hyps sc{si} {expr})", lib.cl([lib.cbool(v[0]), lib.cbool(v[1])])))
+                owner.append((i, "hyp", v))
+                second.append((gexpr, lib.cl([lib.cbool(v[0]), lib.cbool(v[1])] + tail)))
+                owner.append((i, "obs", v))
+        bad2 = set(compare(ctx, "c06split", second, spread(len(second)), prelude, GAP_IMPORTS))
+        agree = set()
+        for i in split:
+            hyp[merged[i]] = (None, None)          # stays so when the model of the history is an error
+        for k, (i, what, v) in enumerate(owner):
+            if what == "t2":
+                if k in bad2:
+                    t2_bad.append(i)
+            elif k not in bad2:
+                if what == "hyp":
+                    hyp[merged[i]] = (bool(v[0]), bool(v[1]))
+                else:
+                    agree.add(i)
+        obs_bad = {merged[i] for i in split if i not in agree}
+        ctx.count("gap2:hypothesis_guess_corrected_by_coq", len([i for i in split if i in agree and i not in t2_bad]))
+    for i in sorted(t2_bad)[:20]:
         si, H, cell = meta[i]
         H = {k: v for k, v in H.items() if not k.startswith("_")}
         ctx.fail("corr", "model (construct / assign_path / parse_into / enc_obj / is_set / read) and implementation disagree",
@@ -1249,7 +1685,47 @@ def run(ctx):
         ctx.fail("corr", "Spec/C06Wire.v (parse_records / has_record / last_member) disagrees with its Python twin",
                  input={"model_expr": spec_pairs[i][0][:2000], "twin": spec_pairs[i][1][:2000]},
                  theorem_or_correspondence="T3 Spec/C06Wire.v <-> harness twin <-> google.protobuf")
-    ctx.cov["disagreements_checked"] = len(pairs) + len(spec_pairs) + len(wf_pairs)
+    # ------------------------------------------------------------------ the gap ties
+    # (2) observers of the model vs the real object; the oracle of C06_encode_presence with the hypotheses Coq computed
+    for j in sorted(obs_bad)[:10]:
+        si, H, cell, expr, tail, dis, lazy, bhex, _ = obj_meta[j]
+        ctx.fail("corr", "value_not_none / which_one_of / child_on_wire of the model (the observers C06_encode_presence speaks about) "
+                         "disagree with `is not None` / which_one_of / serialized_on_wire of the real object",
+                 input={"history": H, "cell": cell, "model_expr": obj_pairs[j][0].replace("r__h", expr)[:3000],
+                        "implementation": obj_pairs[j][1][:1000]},
+                 theorem_or_correspondence="T2 Model/C06Obs.v value_not_none / child_on_wire, Model/Object.v which_one_of <-> betterproto")
+    for j, (si, H, cell, expr, tail, dis, lazy, bhex, _) in enumerate(obj_meta):
+        vo, so = hyp[j]
+        inside = vo is True and so is True and si not in sch_bad
+        ctx.count("gap2:objects:" + ("inside_hypotheses" if inside else
+                                     f"outside(c01_value_ok={vo},sow_ok={so})" if si not in sch_bad else "outside(schema)"))
+        for d in dis:
+            if inside:
+                what = ("C06_encode_presence contradicted on the implementation (c01_value_ok and sow_ok evaluate to true on the "
+                        "model of this object): " + d)
+                cls = None
+            else:
+                what = f"outside the hypotheses of C06_encode_presence (c01_value_ok = {vo}, sow_ok = {so}): " + d
+                cls = "lazy-path" if lazy else None
+            ctx.fail("oracle", what, cls=cls, input={"history": H, "cell": cell, "bytes": bhex})
+    ctx.count("gap2:oracle_comparisons", len(obj_meta))
+    # (1) the specification-side readers on every distinct byte string against the record reader and the reference;
+    # (3) the vocabulary of the implicit-presence theorems on the sweep values (same evaluation run)
+    ng = len(gap_pairs)
+    bad = compare(ctx, "c06gap", gap_pairs + imp_pairs, spread(ng + len(imp_pairs)), prelude, GAP_IMPORTS)
+    for i in [i for i in bad if i < ng][:10]:
+        ctx.fail("corr", "has_field_bytes / which_oneof_bytes / parse_records (Model/C06GapDefs.v, Spec/C06Wire.v) disagree with "
+                         "google.protobuf HasField / WhichOneof (or the record list with the independent reader) on the same bytes",
+                 input={**gap_meta[i], "model_expr": gap_pairs[i][0][:2000], "reference": gap_pairs[i][1][:2000]},
+                 theorem_or_correspondence="T3 Model/C06GapDefs.v has_field_bytes / which_oneof_bytes <-> google.protobuf HasField / WhichOneof")
+    ctx.count("gap1:distinct_byte_strings_compared", ng)
+    for i in [i - ng for i in bad if i >= ng][:10]:
+        ctx.fail("corr", "is_default / here / implicit_exact_kind on a value of an implicit-presence field disagree with the "
+                         "implementation (value == _get_field_default, bytes(m) of the one-field object)",
+                 input={**imp_meta[i], "model_expr": imp_pairs[i][0][:1500], "implementation": imp_pairs[i][1][:1500]},
+                 theorem_or_correspondence="T2 Model/Eq.v is_default, Model/C06Obs.v here <-> betterproto Message.dump")
+    ctx.count("gap3:sweep_values_compared_with_model", len(imp_pairs))
+    ctx.cov["disagreements_checked"] = len(pairs) + len(spec_pairs) + len(wf_pairs) + nsch + len(gap_pairs) + len(obj_pairs) + len(imp_pairs)
     for k in (3, len(pairs) // 3, len(pairs) // 2, len(pairs) - 1):
         if 0 <= k < len(pairs):
             ctx.sample({"history": {a: b for a, b in meta[k][1].items() if not a.startswith("_")}, "cell": meta[k][2],
@@ -1258,7 +1734,15 @@ def run(ctx):
                      "field no presence, so C06 speaks about explicit-presence fields only (C14 owns observer purity). The correspondence still "
                      "compares the is_set vector of every field with the model.")
     ctx.notes.append("-0.0 in a float/double field compares equal to the default 0.0 and is therefore not emitted by an implicit-presence "
-                     "field (the reference emits it); this follows the code's `==` and concerns value fidelity (C01/C02), not presence.")
+                     "field (the reference emits it); this follows the code's `==` (the theorems' is_default agrees with it: compared in the "
+                     "sweep) and is reported as known finding K14, class neg-zero-skipped, by the record-number converse of stage (3).")
+    ctx.notes.append("Timestamp / Duration fields (outside C06_implicit_emit_iff_partial): observed in every history and in the sweep - the "
+                     "epoch / zero span is never emitted, every other value gives exactly one record with the field's number (counts "
+                     "gap3:valuemsg:*); the reference, which keeps presence for them, emits an explicitly set epoch / zero span as an "
+                     "empty record (counts gap3:reference:valuemsg:default:*): not a failure of C06, betterproto has no presence to keep.")
+    ctx.notes.append("C06_encode_presence is stated under c01_value_ok && sow_ok: objects that keep unknown bytes (no_unknown) or a displaced "
+                     "oneof member's value (oneof_clean) are outside it; the reference comparison of stage (2) is made for them all the same "
+                     "and a disagreement is reported as an oracle failure that says so (counts gap2:objects:*).")
     ctx.notes.append("plain Timestamp/Duration fields are mapped to datetime/timedelta values: betterproto keeps no presence for them beyond "
                      "Message.is_set right after decoding (which T3 compares with HasField); an epoch / zero value is not re-emitted.")
     for s in schemas:
@@ -1267,12 +1751,26 @@ def run(ctx):
 
 
 def finish(ctx):
+    if os.environ.get("VERIF_DUMP_FAILURES"):      # self-test aid: every distinct failure text (first 90 characters) with its count
+        tally = {}
+        for f in ctx.failures:
+            k = f"{f['kind']} | {f.get('cls')} | {f['what'][:90]}"
+            tally[k] = tally.get(k, 0) + 1
+        with open(os.environ["VERIF_DUMP_FAILURES"], "w") as fh:
+            json.dump(tally, fh, indent=1)
     return lib.finish(
         ctx, "proof",
         "Coq theorems over the Gallina mirror of Message.__post_init__/__getattribute__/__setattr__/dump/load + an independent record-level "
         "specification of presence; executable correspondence (vm_compute) with the implementation; reference comparison (google.protobuf)",
         ASSUMPTIONS, TRUSTED, RULE,
         extra_cov={"matrix_cells_enumerated": sum(v for k, v in ctx.dist.items() if k.startswith("cell:")),
+                   "gap_ties": {"(1) distinct byte strings: spec readers in Coq vs record reader + HasField / WhichOneof":
+                                    ctx.dist.get("gap1:distinct_byte_strings_compared", 0),
+                                "(2) objects compared with the reference on bytes(m)": ctx.dist.get("gap2:oracle_comparisons", 0),
+                                "(2) of them inside c01_value_ok && sow_ok (evaluated in Coq)": ctx.dist.get("gap2:objects:inside_hypotheses", 0),
+                                "(3) implicit-field observations on histories": sum(v for k, v in ctx.dist.items()
+                                                                                    if k.startswith("gap3:implicit:") or k.startswith("gap3:valuemsg:")),
+                                "(3) sweep values evaluated on is_default / here": ctx.dist.get("gap3:sweep_values_compared_with_model", 0)},
                    "explanation": "theorems are unbounded (all well-formed schemas, all values, all byte strings of complete records); the "
                                   "kind x state x way matrix is enumerated exhaustively every run, combinations and decoder streams are sampled"})
 
@@ -1294,6 +1792,17 @@ def replay(ctx, obj):
     b = bytes(r.m)
     print("bytes(m) =", b.hex(), " repr:", repr(r.m)[:500])
     probs = check_object(schema, H["class"], r.m, b)
+    c = schema.classes[H["class"]]
+    try:
+        probs = probs + implicit_converse(schema, c, r.m, b)[0]
+        from google.protobuf.message import DecodeError
+        try:
+            ref = build_ref(schema, "c06replay")[c.name].FromString(b)
+            probs = probs + [(None, d) for d in enc_presence_disagreements(schema, c, r.m, ref)]
+        except DecodeError:
+            print("the reference rejects bytes(m)")
+    except Exception as e:  # noqa
+        print("reference comparison not available:", type(e).__name__, e)
     for cls, text in probs:
         print("still failing:", text)
     if not probs:
